@@ -17,85 +17,11 @@ import kani
 import sym
 import mir
 import reg as regmod
+import itermodels
 from common import mir_path, Replay
 from smt import Q
 
 LEVEL = "model_checking"
-
-
-def m_deref(engine, st, fr, callee, args, ops):
-    return sym.Adt("Slice", None, [args[0]])
-
-
-def _slice_items(engine, st, v):
-    """-> (ref to the Arr, offset, items) for a &Vec / &[T] / Slice view."""
-    off = 0
-    while True:
-        x = sym._deref_arg(engine, st, v) if isinstance(v, sym.Ref) else v
-        if isinstance(x, sym.Adt) and x.ty == "Slice":
-            if len(x.fields) > 1:
-                off += x.fields[1]
-            v = x.fields[0]
-            continue
-        if isinstance(x, sym.Arr):
-            return v, off, x.items
-        raise mir.Unsupported("slice view of %r" % (x,))
-
-
-def m_slice_iter(engine, st, fr, callee, args, ops):
-    r, off, items = _slice_items(engine, st, args[0])
-    return sym.Adt("SliceIterP", None, [r, off])
-
-
-def m_range_from(engine, st, fr, callee, args, ops):
-    r, off, items = _slice_items(engine, st, args[0])
-    rng = args[1]
-    start = rng.fields[0] if isinstance(rng, sym.Adt) else rng
-    s = sym._concrete_index(start)
-    if s is None:
-        raise mir.Unsupported("symbolic range start")
-    if s > len(items) - off:
-        return sym.Panic(("slice start index out of range", fr.fn.name, fr.bb))
-    return sym.Adt("Slice", None, [r, off + s])
-
-
-def m_range_to(engine, st, fr, callee, args, ops):
-    raise mir.Unsupported("RangeTo slicing is not modelled")
-
-
-def m_saturating_sub(engine, st, fr, callee, args, ops):
-    a, b = args
-    return z3.simplify(z3.If(z3.ULT(a, b), z3.BitVecVal(0, a.size()), a - b))
-
-
-def m_position(engine, st, fr, callee, args, ops):
-    """std's `Iterator::position`: index (relative to the iterator's start) of the first element the predicate accepts.
-    The predicate is the real closure, run from its MIR on a reference to each element."""
-    it = sym._deref_arg(engine, st, args[0])
-    clo = args[1]
-    if not (isinstance(it, sym.Adt) and it.ty == "SliceIterP"):
-        raise mir.Unsupported("position on %r" % (it,))
-    r, off = it.fields
-    arr = sym._deref_arg(engine, st, r)
-    if not isinstance(clo, sym.FnV):
-        raise mir.Unsupported("position with a predicate %r" % (clo,))
-    fn = engine.resolve_fn(clo.name)
-    conds = []
-    cell = ("h", engine.fresh_name("clo"))
-    st.mem[cell] = clo
-    for i in range(off, len(arr.items)):
-        res = engine.call_pure(st, fn, [sym.Ref(cell, (), True), sym.Ref(r.root, r.path + (("index_c", i),))])
-        if len(res) != 1 or res[0].status != "return":
-            raise mir.Unsupported("the predicate forks or panics: %r" % (res,))
-        c = res[0].value
-        conds.append(c if z3.is_bool(c) else c != 0)
-    alts = []
-    none_before = []
-    for k, c in enumerate(conds):
-        alts.append((z3.simplify(z3.And(*(none_before + [c]))), sym.Adt("Option", "Some", [z3.BitVecVal(k, 64)])))
-        none_before.append(z3.Not(c))
-    alts.append((z3.simplify(z3.And(*none_before)) if none_before else True, sym.Adt("Option", "None", [])))
-    return sym.Fork(alts)
 
 
 HINT = "rspirv/sr/storage.rs"
@@ -119,13 +45,7 @@ def m_inline(last, nargs):
 MODELS = [
     (r"^sr::storage::Token::<T>::new$", m_inline("new", 1)),
     (r"^sr::storage::Storage::<T>::append$", m_inline("append", 2)),
-    (r"^<Vec<T> as Deref>::deref$", m_deref),
-    (r"^core::slice::<impl \[T\]>::iter$", m_slice_iter),
-    (r"Index<std::ops::RangeFrom<usize>>>::index$", m_range_from),
-    (r"Index<std::ops::RangeTo<usize>>>::index$", m_range_to),
-    (r"^core::num::<impl usize>::saturating_sub$", m_saturating_sub),
-    (r"^<std::slice::Iter<'_, T> as Iterator>::position::<", m_position),
-]
+] + itermodels.MODELS
 
 
 def eq_atoms(expr):
